@@ -581,6 +581,41 @@ pub fn codec_point_valid(p: &CodecPoint) -> bool {
     }
 }
 
+/// `p + T` for a valid compressed point `p` of G1 (g1 = true) or G2, where T is a non-trivial point of the curve whose
+/// order divides the cofactor: a different curve point outside the prime-order subgroup that pairs like `p`.
+pub fn codec_torsion_shift(rng: &mut Prng, g1: bool, pb: &[u8]) -> Option<Vec<u8>> {
+    use bls12_381_plus as r;
+    for bad in codec_bad_points(rng, g1, 4) {
+        if bad.kind != "off_subgroup" {
+            continue;
+        }
+        if g1 {
+            let a: [u8; 48] = bad.bytes.clone().try_into().ok()?;
+            let q: Option<r::G1Affine> = r::G1Affine::from_compressed_unchecked(&a).into();
+            let q = r::G1Projective::from(q?);
+            let t = q * (-r::Scalar::ONE) + q; // [r-1]Q + Q = [r]Q
+            if bool::from(t.is_identity()) {
+                continue;
+            }
+            let pa: [u8; 48] = pb.try_into().ok()?;
+            let p: Option<r::G1Affine> = r::G1Affine::from_compressed(&pa).into();
+            return Some(r::G1Affine::from(r::G1Projective::from(p?) + t).to_compressed().to_vec());
+        } else {
+            let a: [u8; 96] = bad.bytes.clone().try_into().ok()?;
+            let q: Option<r::G2Affine> = r::G2Affine::from_compressed_unchecked(&a).into();
+            let q = r::G2Projective::from(q?);
+            let t = q * (-r::Scalar::ONE) + q;
+            if bool::from(t.is_identity()) {
+                continue;
+            }
+            let pa: [u8; 96] = pb.try_into().ok()?;
+            let p: Option<r::G2Affine> = r::G2Affine::from_compressed(&pa).into();
+            return Some(r::G2Affine::from(r::G2Projective::from(p?) + t).to_compressed().to_vec());
+        }
+    }
+    None
+}
+
 pub fn codec_bad_points(rng: &mut Prng, g1: bool, n: usize) -> Vec<CodecBad> {
     use bls12_381_plus as r;
     let len = if g1 { 48 } else { 96 };
@@ -794,6 +829,21 @@ pub fn codec_run_c16(rec: &mut CodecRec, rng: &mut Prng, tys: &[CodecTy], bad_g1
                             codec_c16_expect_err(rec, ty, CODEC_JSON, "rejects_invalid_point", key, &input, det);
                         }
                     }
+                }
+            }
+        }
+        // --- human-readable form: every hex field (points, scalars, share containers - all of fixed size)
+        //     shortened or lengthened by whole bytes must be refused, never padded or cut
+        if ty.forms().contains(&CODEC_JSON) {
+            for sm in ty.samples.iter().take(if thorough { 3 } else { 1 }) {
+                for (ml, input) in codec_json_hex_mutations(&sm.json) {
+                    let lab = ml.split(':').nth(1).unwrap_or("");
+                    if !["short_minus_2", "short_half", "short_2", "long_plus_2", "long_double"].contains(&lab) {
+                        continue;
+                    }
+                    let key = format!("{}|json|{}|{}", ty.name, sm.label, ml);
+                    let det = json!({"base": sm.label, "kind": ml});
+                    codec_c16_expect_err(rec, ty, CODEC_JSON, "json_rejects_missized_hex", key, &input, det);
                 }
             }
         }
